@@ -7994,7 +7994,14 @@ def cimvalue(value, type):
     type_obj = type_from_name(type)  # Raises ValueError if invalid type
     if isinstance(value, type_obj):
         return value
-    return type_obj(value)
+    try:
+        return type_obj(value)
+    except OverflowError as exc:
+        # E.g. float infinity for an integer type, or a Python int too large
+        # for a float
+        raise ValueError(
+            _format("Input value {0!A} cannot be represented in CIM type "
+                    "{1!A}: {2}", value, type, exc))
 
 
 def _partition(str_arg, sep):
